@@ -402,35 +402,35 @@ IBC_EMIT = ["ibc2_t", "ibc_t"]
 GATE_MC = ["gate_t", "gateadmin_t"]
 GATE_EMIT = ["gate_q", "gateadmin_t"]
 PLANS = {
-    "C01": plan(["flow_q", "ibc_q", "ibc_hold_q"], FLOW_MC + IBC_MC + DEEP_MC + ["ibc_hold_q"], ["flow_q", "ibc_q", "ibc_hold_q"], FLOW_EMIT + IBC_EMIT + ["ibc_hold_q"], W_Q, W_T, reach=["HonestOutstanding"]),
+    "C01": plan(["flow_q", "ibc_q", "ibc_hold_q"], FLOW_MC + IBC_MC + DEEP_MC + ["ibc_hold_q"], ["flow_q", "ibc_q", "ibc_hold_q"], FLOW_EMIT + IBC_EMIT + ["ibc_hold_q"], W_Q, W_T, reach=["HonestOutstanding"], scen=["REC12", "MIG"]),
     "C02": plan(["flow_q", "ibc_q", "fees_q", "ibc_hold_q"], FLOW_MC + IBC_MC + ["fees_t", "flow_deep_t", "ibc_hold_q"], ["flow_q", "flow_treasury_q", "fees_q", "ibc_q", "ibc_hold_q"],
-                ["flow_t", "flow_treasury_t", "fees_t", "ibc_hold_q"] + IBC_EMIT, W_Q, W_T, reach=["Received"], scen=["KF2"]),
+                ["flow_t", "flow_treasury_t", "fees_t", "ibc_hold_q"] + IBC_EMIT, W_Q, W_T, reach=["Received"], scen=["KF2", "REC12", "MIG"]),
     "C03": plan(["flow_q", "ibc_q", "same_q", "sender_q", "limits_q"], FLOW_MC + IBC_MC + ["same_t", "sender_q", "limits_q"],
                 ["flow_q", "ibc_q", "same_q", "sender_q", "limits_q"], FLOW_EMIT + IBC_EMIT + ["same_t"], W_Q, W_T),
     "C04": plan(["flow_q", "limits_q", "limits1_q", "downrate_q"], FLOW_MC + ["limits_q", "limits1_q", "downrate_q"], ["flow_q", "limits_q", "limits1_q", "downrate_q"],
-                ["flow_extras_t", "flow_t", "limits_q", "limits1_q", "downrate_q", "flow_resume_t"], W_Q, W_T),
+                ["flow_extras_t", "flow_t", "limits_q", "limits1_q", "downrate_q", "flow_resume_t"], W_Q, W_T, wide={"quick": [(30, 60, 0)], "thorough": [(300, 80, 0), (300, 80, 1)]}),
     "C05": plan(["flow_q", "dust_q", "period_q", "long_q"], FLOW_MC + ["dust_q", "flow_deep_t", "period_q", "long_q"], ["flow_q", "dust_q", "period_q", "long_q"],
-                FLOW_EMIT + ["dust_q", "period_q", "long_q"], W_Q, W_T, reach=["Received"]),
-    "C06": plan(["flow_q", "period_q"], FLOW_MC + ["period_q"], ["flow_q", "period_q"], FLOW_EMIT + ["period_q"], W_Q, W_T, reach=["Received"]),
-    "C07": plan(["ibc_q", "ibc_force_q"], IBC_MC + ["ibc_deep_t", "ibc_force_q"], ["ibc_q", "ibc_force_q"], IBC_EMIT + ["ibc_q", "ibc_force_q"], W_Q, W_T, reach=["Refundable"], scen=["KF2"]),
+                FLOW_EMIT + ["dust_q", "period_q", "long_q"], W_Q, W_T, reach=["Received"], wide={"quick": [(30, 60, 0)], "thorough": [(300, 80, 0), (300, 80, 1)]}, scen=["CROWD"]),
+    "C06": plan(["flow_q", "period_q", "downrate_q"], FLOW_MC + ["period_q", "downrate_q"], ["flow_q", "period_q", "downrate_q"], FLOW_EMIT + ["period_q", "downrate_q"], W_Q, W_T, reach=["Received"], wide={"quick": [(30, 60, 0)], "thorough": [(300, 80, 0), (300, 80, 1)]}),
+    "C07": plan(["ibc_q", "ibc_force_q"], IBC_MC + ["ibc_deep_t", "ibc_force_q"], ["ibc_q", "ibc_force_q"], IBC_EMIT + ["ibc_q", "ibc_force_q"], W_Q, W_T, reach=["Refundable"], scen=["KF2", "REC12", "MIG"]),
     "C08": plan(["gate_q", "own"], GATE_MC + ["own_t"], ["gate_q", "own"], GATE_EMIT + ["own_t"], W_Q, W_T, scen=["MIG"]),
     "C09": plan(["gates_q"], GATE_MC, ["gates_q"], GATE_EMIT, W_Q, W_T, scen=["C09", "MIG"]),
-    "C10": plan(["gate_q"], GATE_MC, ["gate_q"], GATE_EMIT, W_Q, W_T, scen=["MIG"]),
+    "C10": plan(["gate_q", "own"], GATE_MC + ["own_t"], ["gate_q", "own"], GATE_EMIT + ["own_t"], W_Q, W_T, scen=["MIG"]),
     "C11": plan(["flow_q", "flow_treasury_q", "fees_q", "fee150_q", "fee100_q", "zerolst_q"], ["flow_t", "flow_treasury_t", "flow_amounts_t", "fees_t", "fee150_q", "fee100_q", "zerolst_q"],
-                ["flow_treasury_q", "fees_q", "fee150_q", "fee100_q", "zerolst_q"], ["flow_t", "flow_treasury_t", "fees_t", "fee150_q", "fee100_q", "zerolst_q"], W_Q, W_T, scen=["MIG"]),
+                ["flow_treasury_q", "fees_q", "fee150_q", "fee100_q", "zerolst_q"], ["flow_t", "flow_treasury_t", "fees_t", "fee150_q", "fee100_q", "zerolst_q"], W_Q, W_T, scen=["MIG"], wide={"quick": [(30, 60, 0)], "thorough": [(300, 80, 0), (300, 80, 1)]}),
     "C12": plan(["own"], ["own_t"], ["own"], ["own_t"], [("admin", 10, 60)], [("admin", 150, 70)]),
-    "C13": plan(["treasury_q", "flow_treasury_q"], ["treasury_t", "flow_treasury_q"], ["treasury_q", "flow_treasury_q"], ["treasury_t", "flow_treasury_q"], [], []),
+    "C13": plan(["treasury_q", "flow_treasury_q"], ["treasury_t", "flow_treasury_q"], ["treasury_q", "flow_treasury_q"], ["treasury_t", "flow_treasury_q"], [], [], scen=["TINST"]),
     "C14": plan(["gates_q"], ["gateadmin_t"], [], ["gateadmin_t"], [("admin", 8, 60)], [("admin", 100, 70)]),
-    "C15": plan(["flow_q", "flow_treasury_q", "resume_q"], ["flow_t", "flow_treasury_t", "flow_amounts_t", "flow_resume_t"], ["flow_q", "flow_treasury_q", "resume_q"],
-                ["flow_t", "flow_treasury_t", "flow_extras_t"], W_Q, W_T, scen=["MIG"]),
+    "C15": plan(["flow_q", "flow_treasury_q", "resume_q", "zerolst_q"], ["flow_t", "flow_treasury_t", "flow_amounts_t", "flow_resume_t", "zerolst_q"], ["flow_q", "flow_treasury_q", "resume_q", "zerolst_q"],
+                ["flow_t", "flow_treasury_t", "flow_extras_t", "zerolst_q", "resume_q"], W_Q, W_T, scen=["MIG"]),
     "C16": plan(["flow_q", "gates_q", "downrate_q"], FLOW_MC + IBC_MC + GATE_MC + ["downrate_q"], ["flow_treasury_q", "ibc_q", "gates_q", "own", "treasury_q", "downrate_q", "fee150_q"],
                 ["flow_t", "flow_treasury_t", "flow_extras_t", "flow_resume_t", "ibc2_t", "gate_q", "gateadmin_t", "own_t", "treasury_q", "downrate_q", "fee150_q"], W_Q, W_T,
                 wide={"quick": [(30, 60, 0), (30, 60, 1)], "thorough": [(400, 80, 0), (400, 80, 1)]}),
-    "C17": plan(["flow_q", "dust_q"], ["flow_t", "dust_q"], ["flow_q", "dust_q"], ["flow_t", "dust_q"], [("chaos", 6, 60)], [("chaos", 60, 70)]),
+    "C17": plan(["flow_q", "dust_q"], ["flow_t", "dust_q"], ["flow_q", "dust_q"], ["flow_t", "dust_q"], [("chaos", 6, 60)], [("chaos", 60, 70)], scen=["CROWD"]),
     "C18": plan(["ibc_q"], IBC_MC, [], [], [], [], scen=["C18"]),
     "C19": plan(["flow_q", "limits1_q", "downrate_q", "flow_treasury_q"], ["flow_t", "limits1_q", "downrate_q", "flow_treasury_q"], ["flow_q", "limits1_q", "downrate_q", "flow_treasury_q"],
                 ["flow_t", "limits1_q", "limits_q", "downrate_q", "flow_resume_t", "flow_treasury_t"],
-                [("chaos", 8, 60)], [("chaos", 100, 70)], scen=["C19b"]),
+                [("chaos", 8, 60)], [("chaos", 100, 70)], scen=["C19b", "CROWD"]),
 }
 LEVEL = "model_checking"
 
@@ -582,8 +582,26 @@ def hook_c19(binp, tier, seed, wd):
         mwh(binp, ["exec", os.path.join(ROOT, "scenarios", sc + ".ndjson"), fa])
         mwh(bin_mw, ["exec", os.path.join(ROOT, "scenarios", sc + ".ndjson"), fb])
         pairs.append(("scen" + sc, fa, fb))
+    # the wide-range driver in both builds (outcome classes only): amounts one build's glue might not be able to carry
+    wide_pairs = []
+    for runs, steps, extreme in ([(30, 60, 0)] if tier == "quick" else [(300, 80, 0), (300, 80, 1)]):
+        fa, fb = os.path.join(wd, f"dualwide-{extreme}-osmosis.ndjson"), os.path.join(wd, f"dualwide-{extreme}-miniwasm.ndjson")
+        mwh(binp, ["wide", fa, seed, runs, steps, extreme])
+        mwh(bin_mw, ["wide", fb, seed, runs, steps, extreme])
+        wide_pairs.append((f"wide-{extreme}", fa, fb))
     nl = 0
     dual_find = []
+    for tag, fa, fb in wide_pairs:
+        rc, out, wall = tlc(os.path.join(SPEC, "DualWide.tla"), os.path.join(SPEC, "DualWide.cfg"), wd,
+                            env={"TRACE_A": fa, "TRACE_B": fb}, timeout=1800, xmx="8g")
+        if "TRACE-CONSUMED" not in out:
+            raise ToolError("DualWide did not consume the pair " + tag + "\n" + out[-2000:])
+        n = sum(1 for _ in open(fa))
+        nl += n
+        fs = [json.loads(unq(m2.group(1))) for m2 in (FIND_RE.match(x.strip()) for x in out.splitlines()) if m2]
+        log(f"[dual] {tag}: {n} wide-range line pairs (osmosis vs miniwasm build) compared by DualWide in {wall:.1f}s: {len(fs)} differing lines")
+        if fs:
+            dual_find.append((tag, fb, fs[0]))
     for tag, fa, fb in pairs:
         rc, out, wall = tlc(os.path.join(SPEC, "DualTrace.tla"), os.path.join(SPEC, "DualTrace.cfg"), wd,
                             env={"TRACE_A": fa, "TRACE_B": fb}, timeout=1800, xmx="8g")
